@@ -619,6 +619,7 @@ SEEDED_MORE = [
     ("C18v", "C14Gen", "src/enc/command.rs", "let ret = (((offset + dextra) << n_postfix) + lcode + n_direct + 1) as isize;", "let ret = (((offset + dextra) << n_postfix) + lcode + n_direct + 2) as isize;", False),
     ("C18v", "C14Gen", "src/enc/command.rs", "        let ret = (((offset + dextra) << n_postfix) + lcode + n_direct + 1) as isize;\n        //assert!(ret != 0);\n        (0, ret)", "        let answer = (((offset + dextra) << n_postfix) + lcode + n_direct + 1) as isize;\n        (0, answer)", True),
     ("C20", "C20Gen", "src/enc/encode.rs", "total = delta.wrapping_add(tail) as u32;", "total = delta as u32;", False),
+    ("C16", "C16Gen", "src/concat/mod.rs", "    mnibbles += 4;", "    mnibbles += 5;", False),
     # C18vGen
     ("C18v", "C18vGen", "src/enc/command.rs", "let copylen_code_delta = (copylen_code as i32 - copylen as i32) as i8;", "let copylen_code_delta = (copylen as i32 - copylen_code as i32) as i8;", False),
     ("C18v", "C18vGen", "src/enc/command.rs", "            (self.dist_prefix_ & 0x3ff) == 0,\n            &mut self.cmd_prefix_,", "            (self.dist_prefix_ & 0x3ff) != 0,\n            &mut self.cmd_prefix_,", False),
